@@ -16,7 +16,7 @@ SPEC = dict(
     nontrivial=nontrivial,
     rule="case = 2..len+1 HTTP exchanges through the real mux+proxy handler between a raw TCP client and a scripted "
          "httptest upstream (12 methods; RFC 3986 paths with raw and percent-encoded segments; query strings incl. a bare '?'; "
-         "0-7 request headers with 1-3 lines each, X-Forwarded-For on 0-3 lines; bodies 0 B-1 MiB, Content-Length or chunked; "
+         "0-7 request headers with 1-3 lines each, X-Forwarded-For on 0-3 lines; bodies 0 B-6 MiB incl. 4,999,999/5,000,000/5,000,001 B, Content-Length or chunked, Content-Encoding absent/gzip/zstd (valid and mislabelled)/deflate/identity; "
          "upstream status 200-999 incl. 3xx with/without Location, 0-6 response headers with repeated lines, Set-Cookie on 1-3 lines); "
          "non-trivial = at least one exchange reached the upstream exactly once and the case has a repeated header line, "
          "a query string or a request body; distinct by transcript hash",
@@ -40,7 +40,7 @@ SPEC = dict(
     assumptions=[
         "request targets are RFC 3986 origin-form (for these net/url's EscapedPath/RequestURI reproduce the bytes verbatim); CONNECT, OPTIONS * and absolute-form targets are not generated",
         "paths Refinery serves itself (/alive /ready /panic /version, GET /query/*, POST /1/events|batch/{ds}, POST /v1/traces|logs) are excluded",
-        "hop-by-hop request headers (Connection, Upgrade, TE, Expect, Trailer, Proxy-*) and content-codings (Content-Encoding on responses) are not generated",
+        "hop-by-hop request headers (Connection, Upgrade, TE, Expect, Trailer, Proxy-*) and Content-Encoding on responses are not generated",
         "canonicalised as net/http's own per-hop behaviour: Host, Content-Length, Transfer-Encoding, Date, Connection, the transport's default Accept-Encoding: gzip and User-Agent when the client sent none, header-name case",
         "the setResponseHeaders middleware's presets (Content-Type: application/json, Access-Control-Allow-Origin: *) are part of the model, not counted as a change; they show through only when the upstream sends no such header",
         "an http.Header map has unique (canonical) keys: theorems assume NoDupKeys",
